@@ -10,6 +10,7 @@
 package main
 
 import (
+	"bytes"
 	"encoding/binary"
 	"fmt"
 	"math/rand/v2"
@@ -31,13 +32,17 @@ type tester struct {
 	// carrier block for the supplement route (one arbitrary-data v1 txn), rebuilt per state
 	carrier    *types.Block
 	carrierFor types.BlockID
-	spentSC    []spentSC
-	spentSF    []spentSF
-	resolvedV2 []resolvedV2
-	resolvedV1 []resolvedV1
-	revertedSC []types.SiacoinElement
-	revertedSF []types.SiafundElement
-	revertedCI []types.ChainIndexElement
+	// the same for a block with a v2 part and no v1 transaction
+	carrierV2      *types.Block
+	carrierV2For   types.BlockID
+	expiringProbes int
+	spentSC        []spentSC
+	spentSF        []spentSF
+	resolvedV2     []resolvedV2
+	resolvedV1     []resolvedV1
+	revertedSC     []types.SiacoinElement
+	revertedSF     []types.SiafundElement
+	revertedCI     []types.ChainIndexElement
 }
 
 type spentSC struct {
@@ -105,7 +110,24 @@ func (t *tester) r3(cs consensus.State, fill func(bs *consensus.V1BlockSupplemen
 	}
 	bs := consensus.V1BlockSupplement{Transactions: make([]consensus.V1TransactionSupplement, 1)}
 	fill(&bs)
-	err := consensus.ValidateBlock(cs, *t.carrier, bs)
+	carrier := t.carrier
+	if ts := bs.Transactions[0]; h >= n.HardforkV2.AllowHeight && len(bs.ExpiringFileContracts) > 0 && len(ts.SiacoinInputs)+len(ts.SiafundInputs)+len(ts.RevisedFileContracts)+len(ts.StorageProofs) == 0 {
+		// a supplement that only lists expiring contracts also travels with a block that has a v2 part and no v1
+		// transaction at all (every other probe of this kind uses that carrier)
+		if t.expiringProbes++; t.expiringProbes%2 == 1 {
+			if t.carrierV2 == nil || t.carrierV2For != cs.Index.ID {
+				b := types.Block{ParentID: cs.Index.ID, Timestamp: t.carrier.Timestamp, V2: &types.V2BlockData{Transactions: []types.V2Transaction{{ArbitraryData: []byte("carrier")}}}}
+				if err := t.c.Seal(cs, &b, types.VoidAddress, 1, nil); err != nil {
+					return false, false
+				}
+				t.carrierV2, t.carrierV2For = &b, cs.Index.ID
+			}
+			carrier = t.carrierV2
+			bs.Transactions = nil
+			t.b.Count("supplement_expiring_probes_on_a_v2_only_carrier", 1)
+		}
+	}
+	err := consensus.ValidateBlock(cs, *carrier, bs)
 	if err != nil && !strings.Contains(err.Error(), "block supplement is invalid") {
 		// the carrier itself failed for another reason: route unusable
 		t.b.Inconclusive("supplement carrier block rejected: " + chaingen.NormErr(err))
@@ -627,6 +649,58 @@ func (t *tester) otherSE(notIndex uint64) *types.StateElement {
 	return nil
 }
 
+// wireDuplicates: a live element is a member however its proof reached the validator. Transaction sets in which one
+// live element is the parent of several transactions (one chain index used by two storage proofs, one contract
+// revised by two transactions, one output named twice) are sent through the multiproof wire form - which transmits
+// each leaf's proof once and rebuilds the others - and every decoded copy must still be accepted.
+func (t *tester) wireDuplicates(cs consensus.State, host types.V2FileContractElement, haveHost bool) {
+	s := t.c.S
+	try := func(kind string, txns []types.V2Transaction, depth int) {
+		var buf bytes.Buffer
+		e := types.NewEncoder(&buf)
+		ok := true
+		func() {
+			defer func() {
+				if recover() != nil {
+					ok = false
+				}
+			}()
+			types.V2TransactionsMultiproof(txns).EncodeTo(e)
+		}()
+		e.Flush()
+		var out types.V2TransactionsMultiproof
+		d := types.NewBufDecoder(buf.Bytes())
+		if ok {
+			out.DecodeFrom(d)
+		}
+		if !ok || d.Err() != nil || len(out) != len(txns) {
+			t.b.Count("wire_duplicate_sets_not_decodable(not judged here)", 1)
+			return
+		}
+		acc := true
+		for _, txn := range out {
+			acc = acc && t.r1(cs, txn)
+		}
+		t.expect(kind, "none/same-live-parent-in-several-transactions-through-the-wire-form", true, "ValidateTransactionElements", acc)
+		t.b.Count("wire_duplicate_sets_tried", 1)
+		if depth >= 2 {
+			t.b.Count("wire_duplicate_sets_tried_with_proofs_of_two_or_more_hashes", 1)
+		}
+	}
+	if scs := s.OrderedSC(); len(scs) > 0 {
+		e := s.SCEs[scs[t.rng.IntN(len(scs))]]
+		try("siacoin", []types.V2Transaction{wrapSC(e.Copy()), wrapSC(e.Copy()), wrapSC(e.Copy())}, len(e.StateElement.MerkleProof))
+	}
+	if !haveHost {
+		return
+	}
+	try("v2filecontract", []types.V2Transaction{wrapV2FCrev(host.Copy()), wrapV2FCres(host.Copy())}, len(host.StateElement.MerkleProof))
+	hh := uint64(t.rng.IntN(int(cs.Index.Height) + 1))
+	if ci, ok := s.CIEs[hh]; ok {
+		try("chainindex", []types.V2Transaction{wrapCI(host.Copy(), ci.Copy()), wrapCI(host.Copy(), ci.Copy())}, len(ci.StateElement.MerkleProof))
+	}
+}
+
 func (t *tester) sample(cs consensus.State) {
 	s := t.c.S
 	per := 2
@@ -651,6 +725,7 @@ func (t *tester) sample(cs consensus.State) {
 		e := s.V2FCEs[v2s[t.rng.IntN(len(v2s))]]
 		host = e.Copy()
 		t.testV2FC(cs, e.Copy(), t.otherSE(e.StateElement.LeafIndex))
+		t.wireDuplicates(cs, host, true)
 		// chain index (needs a live contract as the carrier of the storage proof)
 		hh := uint64(t.rng.IntN(int(cs.Index.Height) + 1))
 		if ci, ok := s.CIEs[hh]; ok {
@@ -1372,6 +1447,6 @@ func main() {
 		Run:         run,
 		MinEvals:    5000,
 		MinDistinct: 150,
-		Require:     []string{"v1_window_ids_replaced_by_a_non_ancestor", "blocks_applied", "blocks_reverted", "live_elements_accepted", "non_members_rejected", "v2_pending_revision_parents_tried"},
+		Require:     []string{"v1_window_ids_replaced_by_a_non_ancestor", "blocks_applied", "blocks_reverted", "live_elements_accepted", "non_members_rejected", "v2_pending_revision_parents_tried", "supplement_expiring_probes_on_a_v2_only_carrier", "wire_duplicate_sets_tried_with_proofs_of_two_or_more_hashes"},
 	})
 }
